@@ -49,6 +49,10 @@ def search(tier, seed):
     gram = []
     for h in sents:
         gram += [h, h + "2a2031204558495354530d0a", h[:-4] + "2078" + h[-4:] if h.endswith("0d0a") else h + "0d0a", h[:-4] + h[-4:] * 2 if h.endswith("0d0a") else h]
+        # one byte missing (a closing bracket, quote or parenthesis that never comes), alone and followed by another line
+        for k in range(0, len(h) - 4, 2):
+            d = h[:k] + h[k + 2:]
+            gram += [d, d + "2a2031204558495354530d0a"]
     for stream in ("valid", "follow", "mutate", "garbage", "grammar"):
         if stream == "grammar":
             if not gram:
